@@ -127,8 +127,10 @@ def main(rec):
         descs.append((c["name"], normalise_base(d), clean, {"input": os.path.join(common.REPO, "regression", "input")},
                       "work/" + c["yaml"]))
     libs = gen.libraries(thorough, count=(60 if thorough else 12), salt="c16")
+    light = set()
     if not thorough:
-        libs = [x for i, x in enumerate(libs) if x[0].startswith("gmix") or i % 8 == common.seed() % 8]
+        # every single-row library takes part; outside the rotation only with the pairs (off, debug) and (off, all on)
+        light = {x[0] for i, x in enumerate(libs) if not (x[0].startswith("gmix") or i % 8 == common.seed() % 8)}
     # user code in the structural splicer blocks of every emitter (file tops, module parts, declarations / definitions):
     # it is code, so none of the five options may add, drop or move it
     USER_CODE = {
@@ -159,6 +161,9 @@ def main(rec):
             combos = singles + [all_combos[-1]] + r.sample(all_combos[1:-1], 2)
         nd = len(decl_entries(d))
         placements = [("library", None)]
+        if name in light:
+            combos = [dict(off, debug=True), all_combos[-1]]
+            nd = 0
         if nd:
             pick = sorted(r.sample(range(nd), max(1, nd // 2)))
             placements.append(("decl", pick))
